@@ -285,7 +285,8 @@ func mergeIPAMConfig(c any, o any, path tree.Path) (any, error) {
 			return nil, fmt.Errorf("cannot override %s", path)
 		}
 		indexIfExist := slices.IndexFunc(ipamConfigs, func(a any) bool {
-			return a.(map[string]any)["subnet"] == left["subnet"]
+			// (DeepEqual: wrongly typed subnets are left to validation, they must not panic here)
+			return reflect.DeepEqual(a.(map[string]any)["subnet"], left["subnet"])
 		})
 		if indexIfExist < 0 {
 			ipamConfigs = append(ipamConfigs, left)
